@@ -96,9 +96,20 @@ func (self *Node) MarshalJSON() ([]byte, error) {
 		return bytesNull, nil
 	}
 
-	// fast path for raw node
+	// fast path for raw node: the raw text may only be read under the read lock,
+	// a concurrent parseRaw() replaces (l, p) before it publishes the new type
 	if self.isRaw() {
-		return rt.Str2Mem(self.toString()), nil
+		lock := self.rlock()
+		if self.isRaw() {
+			ret := rt.Str2Mem(self.toString())
+			if lock {
+				self.runlock()
+			}
+			return ret, nil
+		}
+		if lock {
+			self.runlock()
+		}
 	}
 
 	buf := newBuffer()
